@@ -54,8 +54,34 @@ func c05WriteQuorum(r *core.Run) {
 		return
 	}
 	if len(ifs) > 1 {
-		r.Unknown("wq-compare", syncPut, site(r, f.Pos()), "more than one comparison with WriteQuorum; the rule knows the single-comparison shape only")
-		return
+		// keep the comparison that decides the acknowledgement: the one from which a nil return is reachable
+		var ack []*ssa.If
+		for _, ifi := range ifs {
+			for _, ret := range core.ReturnsFrom(ifi.Block(), nil) {
+				if core.ErrState(core.ResultValue(ret, 0), ret.Block(), pt) == core.IsNil {
+					ack = append(ack, ifi)
+					break
+				}
+			}
+		}
+		// prefer the last one in dominance order (the final decision)
+		var last *ssa.If
+		for _, a := range ack {
+			dominatedByAll := true
+			for _, b := range ack {
+				if a != b && !b.Block().Dominates(a.Block()) {
+					dominatedByAll = false
+				}
+			}
+			if dominatedByAll {
+				last = a
+			}
+		}
+		if last == nil {
+			r.Unknown("wq-compare", syncPut, site(r, f.Pos()), "several comparisons with WriteQuorum and none is the final acknowledging decision")
+			return
+		}
+		ifs = []*ssa.If{last}
 	}
 	ifi := ifs[0]
 	taken, _ := core.CmpTaken(ifi, func(v ssa.Value) bool { return !isWQ(v) }, isWQ)
